@@ -174,6 +174,11 @@ type Exec struct {
 	dry      int
 	unsupported []string
 	modCollect *[]*LVal
+	refsOldUnknown Term // what refsOld answers when it cannot tell: false where it justifies a step, true where it is assumed
+	opqDone    map[string]bool
+	pendingAxioms []string
+	heapElemType map[string]types.Type
+	postDepth  map[*Contract]int
 	virt       map[string]*LVal
 	virtByKey  map[string]Term
 	wfDepth int
@@ -186,7 +191,7 @@ type Exec struct {
 }
 
 func newExec(e *Engine, unit string, props []string) *Exec {
-	x := &Exec{eng: e, vc: newVC(e), unit: unit, props: props, ordinals: map[string]int{}, initHeap: map[string]Term{}, initGlob: map[*ssa.Global]Term{},
+	x := &Exec{eng: e, vc: newVC(e), unit: unit, props: props, refsOldUnknown: tFalse, ordinals: map[string]int{}, initHeap: map[string]Term{}, initGlob: map[*ssa.Global]Term{},
 		inlined: map[string]bool{}, havocked: map[string]bool{}, pureUsed: map[string]bool{}}
 	return x
 }
@@ -252,8 +257,45 @@ func (x *Exec) heap(st *State, h heapID) Term {
 		t = Term{h.name + "!0", h.sort}
 		x.vc.decls = append(x.vc.decls, fmt.Sprintf("(declare-const %s %s)", t.S, h.sort))
 		x.initHeap[h.name] = t
+		x.entryClosure(h, t)
 	}
 	return t
+}
+
+// entryClosure: objects that exist at unit entry refer only to objects that exist at entry
+// (a quantified fact about the entry heap, instantiated by reads of that heap).
+func (x *Exec) entryClosure(h heapID, t Term) {
+	et := x.vc.heapTypes[h.name]
+	if et == nil || x.top0.S == "" {
+		return
+	}
+	save := x.vc.noName
+	x.vc.noName = 1 // build the body without naming
+	saveU := x.refsOldUnknown
+	x.refsOldUnknown = tTrue
+	defer func() { x.vc.noName = save; x.refsOldUnknown = saveU }()
+	var body Term
+	var pat string
+	if strings.HasPrefix(h.name, "A_") {
+		es := x.vc.sortOf(et)
+		el := Term{"(select (select " + t.S + " r!c) i!c)", es}
+		body = x.refsOld(el, et, 0)
+		pat = el.S
+		if body.S == "true" {
+			return
+		}
+		x.vc.decls = append(x.vc.decls, fmt.Sprintf("(assert (forall ((r!c Int) (i!c Int)) (! (=> (<= r!c %s) %s) :pattern (%s))))", x.top0.S, body.S, pat))
+		return
+	}
+	if !strings.HasPrefix(h.name, "H_") {
+		return
+	}
+	el := Term{"(select " + t.S + " r!c)", x.vc.sortOf(et)}
+	body = x.refsOld(el, et, 0)
+	if body.S == "true" {
+		return
+	}
+	x.vc.decls = append(x.vc.decls, fmt.Sprintf("(assert (forall ((r!c Int)) (! (=> (and (<= 1 r!c) (<= r!c %s)) %s) :pattern (%s))))", x.top0.S, body.S, el.S))
 }
 
 func (x *Exec) setHeap(st *State, h heapID, t Term) {
@@ -372,7 +414,10 @@ func (x *Exec) load(st *State, lv *LVal) Term {
 	if lv.cell == nil && lv.global == nil && !st.dirty[x.lvHeapName(lv)] && x.vc.noName == 0 && x.top0.S != "" && !isFreshRefTerm(lv.ptr) {
 		switch underlying(lv.typ).(type) {
 		case *types.Pointer, *types.Map, *types.Slice, *types.Interface:
+			saveU := x.refsOldUnknown
+			x.refsOldUnknown = tTrue
 			x.vc.assert(implies(le(lv.ptr, x.top0), x.refsOld(t, lv.typ, 0)))
+			x.refsOldUnknown = saveU
 		}
 	}
 	return t
@@ -799,13 +844,13 @@ func (x *Exec) mergeStates(sts []*State) *State {
 			res.written[k] = true
 		}
 	}
-	for k := range ckeys {
+	for _, k := range sortedCellKeys(ckeys) {
 		k := k
 		if v, ok := pick(func(s *State) (Term, bool) { v, ok := s.cells[k]; return v, ok }); ok {
 			res.cells[k] = v
 		}
 	}
-	for k := range gkeys {
+	for _, k := range sortedGlobals(gkeys) {
 		k := k
 		v, _ := pick(func(s *State) (Term, bool) {
 			if v, ok := s.globals[k]; ok {
@@ -818,7 +863,7 @@ func (x *Exec) mergeStates(sts []*State) *State {
 		})
 		res.globals[k] = v
 	}
-	for k := range hkeys {
+	for _, k := range sortedKeys(hkeys) {
 		k := k
 		v, _ := pick(func(s *State) (Term, bool) {
 			if v, ok := s.heaps[k]; ok {
@@ -828,7 +873,7 @@ func (x *Exec) mergeStates(sts []*State) *State {
 		})
 		res.heaps[k] = v
 	}
-	for k := range ikeys {
+	for _, k := range sortedIterKeys(ikeys) {
 		k := k
 		if v, ok := pick(func(s *State) (Term, bool) { v, ok := s.iters[k]; return v, ok }); ok {
 			res.iters[k] = v
@@ -1079,6 +1124,9 @@ func (x *Exec) checkInvariants(fr *Frame, h *ssa.BasicBlock, st *State, when str
 	}
 	n := loopOrdinal(fr.fn, h)
 	for i, cl := range ls.Invariants {
+		if skipClause(cl, x.eng) {
+			continue // thorough-tier invariant: neither checked nor assumed in the quick tier
+		}
 		gf := x.eng.ghostFunc(fr.fn.Pkg.Pkg.Path(), cl.Ghost)
 		if gf == nil {
 			panic(engErr("ghost function %s missing", cl.Ghost))
@@ -1125,14 +1173,15 @@ func (x *Exec) enterLoop(fr *Frame, h *ssa.BasicBlock, st *State) *State {
 		hs.written[k] = true
 	}
 	topEntry := st.top
-	for k := range written {
+	for _, k := range sortedKeys(written) {
 		switch {
 		case k == "top":
 			nt := x.vc.fresh("top", SInt)
 			x.vc.assert(le(st.top, nt))
 			hs.top = nt
 		case strings.HasPrefix(k, "c:"):
-			for ck, old := range st.cells {
+			for _, ck := range sortedCellKeysOf(st.cells) {
+				old := st.cells[ck]
 				if fmt.Sprintf("c:%d:%p", ck.fr, ck.a) == k {
 					nv := x.vc.fresh("lc_"+mangle(ck.a.Comment), old.Sort)
 					hs.cells[ck] = nv
@@ -1153,17 +1202,33 @@ func (x *Exec) enterLoop(fr *Frame, h *ssa.BasicBlock, st *State) *State {
 			}
 			nh := x.vc.fresh(name, old.Sort)
 			hs.heaps[name] = nh
-			hs.markDirty(name)
 			// objects existing at loop entry and written only when fresh keep their contents:
 			// (this frame axiom is justified only for heaps whose in-loop writes target
 			// in-loop allocations; see freshOnly)
-			if x.freshOnlyWrites(fr, blocks, name) {
+			if !x.freshOnlyWrites(fr, blocks, name) {
+				hs.markDirty(name)
+			} else {
 				x.vc.assert(Term{fmt.Sprintf("(forall ((r Int)) (! (=> (<= r %s) (= (select %s r) (select %s r))) :pattern ((select %s r))))", topEntry.S, nh.S, old.S, nh.S), SBool})
 			}
 		case strings.HasPrefix(k, "i:"):
-			for ik, old := range st.iters {
+			for _, ik := range sortedIterKeysOf(st.iters) {
+				old := st.iters[ik]
 				if fmt.Sprintf("i:%d:%p", ik.fr, ik.r) == k {
-					hs.iters[ik] = x.vc.fresh("visited", old.Sort)
+					nv := x.vc.fresh("visited", old.Sort)
+					hs.iters[ik] = nv
+					// structural fact of the iterator model: only keys of the map are ever visited
+					// (the ranged map itself is not modified inside the loop: checked below)
+					if mt, ok := underlying(ik.r.X.Type()).(*types.Map); ok && ik.fr == fr.id {
+						if m, ok := fr.regs[ik.r]; ok {
+							ks := x.vc.sortOf(mt.Key())
+							dom := x.mapDom(st, mt, m)
+							x.vc.assert(Term{fmt.Sprintf("(forall ((k %s)) (! (=> (select %s k) (and (not (= %s 0)) (select %s k))) :pattern ((select %s k))))", ks, nv.S, m.S, dom.S, nv.S), SBool})
+							d, _, _ := x.vc.mapHeaps(mt)
+							if written["h:"+d.name] {
+								x.note("map of the same type as a ranged map is written inside its loop in %s: the visited-subset-of-domain fact assumes the ranged map itself is not modified", shortFn(fr.fn))
+							}
+						}
+					}
 				}
 			}
 		case k == "effects":
@@ -1177,6 +1242,9 @@ func (x *Exec) enterLoop(fr *Frame, h *ssa.BasicBlock, st *State) *State {
 	}
 	if ls := x.loopSpec(fr, h); ls != nil && !fr.spec {
 		for _, cl := range ls.Invariants {
+			if skipClause(cl, x.eng) {
+				continue
+			}
 			gf := x.eng.ghostFunc(fr.fn.Pkg.Pkg.Path(), cl.Ghost)
 			t := x.evalGhost(fr, gf, x.invArgs(fr, hs, ls), x.invArgs(fr, fr.entry, ls), hs, fr.entry)
 			x.vc.assert(implies(hs.reach, t))
@@ -1283,4 +1351,66 @@ func (x *Exec) lvHeapName(lv *LVal) string {
 		return x.vc.arrHeap(lv.rootT).name
 	}
 	return x.vc.objHeap(lv.rootT).name
+}
+
+func cellLess(a, b cellKey) bool {
+	if a.fr != b.fr {
+		return a.fr < b.fr
+	}
+	if a.a.Pos() != b.a.Pos() {
+		return a.a.Pos() < b.a.Pos()
+	}
+	return a.a.Name() < b.a.Name()
+}
+
+func sortedCellKeys(m map[cellKey]bool) []cellKey {
+	ks := make([]cellKey, 0, len(m))
+	for k := range m {
+		ks = append(ks, k)
+	}
+	sort.Slice(ks, func(i, j int) bool { return cellLess(ks[i], ks[j]) })
+	return ks
+}
+
+func sortedCellKeysOf(m map[cellKey]Term) []cellKey {
+	ks := make([]cellKey, 0, len(m))
+	for k := range m {
+		ks = append(ks, k)
+	}
+	sort.Slice(ks, func(i, j int) bool { return cellLess(ks[i], ks[j]) })
+	return ks
+}
+
+func sortedGlobals(m map[*ssa.Global]bool) []*ssa.Global {
+	ks := make([]*ssa.Global, 0, len(m))
+	for k := range m {
+		ks = append(ks, k)
+	}
+	sort.Slice(ks, func(i, j int) bool { return ks[i].String() < ks[j].String() })
+	return ks
+}
+
+func iterLess(a, b cellKey2) bool {
+	if a.fr != b.fr {
+		return a.fr < b.fr
+	}
+	return a.r.Pos() < b.r.Pos()
+}
+
+func sortedIterKeys(m map[cellKey2]bool) []cellKey2 {
+	ks := make([]cellKey2, 0, len(m))
+	for k := range m {
+		ks = append(ks, k)
+	}
+	sort.Slice(ks, func(i, j int) bool { return iterLess(ks[i], ks[j]) })
+	return ks
+}
+
+func sortedIterKeysOf(m map[cellKey2]Term) []cellKey2 {
+	ks := make([]cellKey2, 0, len(m))
+	for k := range m {
+		ks = append(ks, k)
+	}
+	sort.Slice(ks, func(i, j int) bool { return iterLess(ks[i], ks[j]) })
+	return ks
 }
